@@ -84,7 +84,7 @@ class VLoop(asyncio.BaseEventLoop):
         return sorted((t for t in self.vtasks if not t.done()), key=lambda t: t.serial)
 
 
-def run(main_factory, *, loop=None, shutdown=True, result=None):
+def run(main_factory, *, loop=None, shutdown=True, result=None, before_shutdown=None):
     """Mirror of asyncio.run on a VLoop.
 
     main_factory: callable returning the main coroutine (called with the loop current).
@@ -104,6 +104,8 @@ def run(main_factory, *, loop=None, shutdown=True, result=None):
             outcome = ('livelock', str(d))
         except Exception as e:  # noqa
             outcome = ('exc', e)
+        if before_shutdown is not None:
+            before_shutdown(outcome)
         if shutdown:
             try:
                 pend = loop.pending_tasks()
